@@ -159,7 +159,7 @@ Record ldata := mkLD {
   old_cand : option nat;       (* old-candidate-index, None = -1 *)
   old_inhib : N; old_lastref : N; old_cohort : N;
   old_before : list N;         (* old-revs-before-cand *)
-  old_rs : option (list N)     (* old-revert-status, only set on reverts *)
+  old_rs : option (list N)     (* old-revert-status (saved by every link-snap since fix 5dcb85f; None = task of an older snapd) *)
 }.
 
 (* config.SaveRevisionConfig / RestoreRevisionConfig / DiscardRevisionConfig / DeleteSnapConfig *)
@@ -212,7 +212,7 @@ Definition do_link (o : op) (s : st) : st * ldata :=
   (mkSt seq' r true (if ochan o =? 0 then chan s else ochan o) (odev o) (ojail o) (oclassic o) (otry o) (oignore o)
         (ocohort o) (if is_revert o then lastref s else onow o) 0 nb' cfg1 revcfg1 (mounted s) r,
    mkLD (chan s) (ignoreval s) (trymode s) (devmode s) (jailmode s) (classic s) (cur s) ci (inhib s) (lastref s)
-        (cohort s) before (if is_revert o then Some (nb s) else None)).
+        (cohort s) before (Some (nb s))).
 
 (* countMissingRevs *)
 Definition count_found (revs l : list N) : nat :=
@@ -233,7 +233,11 @@ Definition undo_link (o : op) (d : ldata) (s : st) : st :=
                            (* copy(seq[oci'+1:], seq[oci':]); seq[oci'] = cand *)
                            firstn oci' (seq s) ++ cand :: skipn oci' (removelast (seq s))
                   end in
-      let nb' := if is_revert o then match old_rs d with Some l => l | None => [] end else nb s in
+      (* old-revert-status is restored whenever it was saved, leaving out revisions discarded before the failure *)
+      let nb' := match old_rs d with
+                 | Some l => filter (fun r => mem r seq') l
+                 | None => if is_revert o then [] else nb s
+                 end in
       let cfg' := match seq' with
                   | [] => 0                                              (* config.DeleteSnapConfig *)
                   | _ => restore_rev_cfg (old_cur d) (cfg s) (revcfg s)  (* config.RestoreRevisionConfig(oldCurrent) *)
